@@ -25,7 +25,10 @@ CONSTANTS Strict
 T == ndJsonDeserialize(IOEnv.TRACE_FILE)
 VARIABLE l
 
-StateOf(js) == [js EXCEPT !.defRefs = [d \in DOMAIN @ |-> SeqSet(@[d])]]
+(* the IR part of a logged state (optional extras such as the lookup table removed) *)
+StateOf(js) == LET core == [f \in DOMAIN Empty |-> js[f]] IN
+               [core EXCEPT !.defRefs = [d \in DOMAIN @ |-> SeqSet(@[d])]]
+LookupOf(js) == IF "lookup" \in DOMAIN js THEN js.lookup ELSE <<>>
 CallOf(c) ==
     CASE c.op = "remove_from"     -> [c EXCEPT !.xs = SeqSet(@)]
       [] c.op = "disconnect_from" -> [c EXCEPT !.pins = SeqSet(@)]
@@ -33,17 +36,23 @@ CallOf(c) ==
 
 Pre(r)  == StateOf(T[r.pre].state)
 Post(r) == IF r.same THEN Pre(r) ELSE StateOf(r.state)
+FullPre(r)  == T[r.pre].state
+FullPost(r) == IF r.same THEN FullPre(r) ELSE r.state
 
-StateClauses(s) ==
-    << <<"C01_ParentChild", C01_ParentChild(s)>>,
+StateClauses(s, lk) ==
+    << <<"C10_Unique", C10_Unique(s)>>,
+       <<"C10_LegalIds", C10_LegalIds(s)>>,
+       <<"C10_LookupAgrees", C10_LookupAgrees(s, lk)>>,
+       <<"C01_ParentChild", C01_ParentChild(s)>>,
        <<"C01_PinWire", C01_PinWire(s)>>,
        <<"C02_RefSets", C02_RefSets(s)>>,
        <<"C02_OuterPinMirror", C02_OuterPinMirror(s)>>,
        <<"C02_DroppedOffWire", C02_DroppedOffWire(s)>> >>
-ActionClauses(pre, c, out, post) ==
+ActionClauses(pre, c, out, post, fullpre, fullpost) ==
     << <<"C01_ReorderPermutes", C01_ReorderPermutes(pre, c, post)>>,
        <<"C02_RepointKeeps", C02_RepointKeeps(pre, c, out, post)>>,
-       <<"C14_RefusedUnchanged", C14_RefusedUnchanged(pre, out, post)>> >>
+       <<"C10_RefusalExact", C10_RefusalExact(pre, c, out)>>,
+       <<"C14_RefusedUnchanged", C14_RefusedUnchanged(fullpre, out, fullpost)>> >>
 
 Report(tag, k, cl) ==
     \A j \in DOMAIN cl : IF cl[j][2] THEN TRUE ELSE PrintT(<<tag, k, cl[j][1]>>)
@@ -54,10 +63,10 @@ StrictClauses(pre, c, out, post) ==
 
 CheckRecord(k) ==
     LET r == T[k] IN
-    IF r.t = "reset" THEN Report("FAIL", k, StateClauses(StateOf(r.state)))
+    IF r.t = "reset" THEN Report("FAIL", k, StateClauses(StateOf(r.state), LookupOf(r.state)))
     ELSE LET pre == Pre(r)  post == Post(r)  c == CallOf(r.call) IN
-         /\ (IF r.same THEN TRUE ELSE Report("FAIL", k, StateClauses(post)))
-         /\ Report("FAIL", k, ActionClauses(pre, c, r.out, post))
+         /\ (IF r.same THEN TRUE ELSE Report("FAIL", k, StateClauses(post, LookupOf(r.state))))
+         /\ Report("FAIL", k, ActionClauses(pre, c, r.out, post, FullPre(r), FullPost(r)))
          /\ (IF Strict THEN Report("DRIFT", k, StrictClauses(pre, c, r.out, post)) ELSE TRUE)
 
 Init == l = 0
